@@ -227,6 +227,7 @@ def run(ctx, rep):
     rep.rule("hash-iter", "every iteration over a hash container in libwild is a table row (by function, or by container for re-verified kinds); rows of kind `sort` have a sort in the same body; rows of kind `prefix-free` select with strip_prefix over a key set read from the declarations and checked pairwise prefix-free")
     rep.rule("sources", "every call of a nondeterminism source (thread count, time, uuid, env, pid, randomness) is a row of the allow table")
     rep.rule("rmw-init", "a read-modify-write store into an output slice is dominated by a fill of that slice or a plain store to the same place")
+    rep.rule("total-order", "collections whose arrival order depends on scheduling are sorted by a total key: the dynamic symbols by (bucket, name) - the name makes the order total and schedule-independent")
     rep.rule("zero-fill", "padding between sections, unused trailing space of parts and hash-table arrays are zero-filled")
 
     # ---- drains -----------------------------------------------------------------------------------------
@@ -396,5 +397,15 @@ def run(ctx, rep):
     w = F.body("libwild::elf_writer::write_file_contents")
     if w is not None:
         rep.ob("zero-fill", "fill_padding-called", has_call(P, F, w.key, lambda c, d: c == "libwild::elf_writer::fill_padding"), "write_file_contents ends with fill_padding", w.file, w.line)
+    # ---- total order of the dynamic symbols ---------------------------------------------------------------------------
+    # Export requests that cross groups (WorkItem::ExportDynamic) are pushed to dynamic_symbol_definitions in arrival order, which
+    # depends on the thread count and on scheduling; .dynsym/.dynstr/.gnu.hash are written in the order of that vector. Only a sort
+    # by a *total* key removes the dependency: a stable sort by bucket alone keeps arrival order inside a bucket.
+    import sortkey
+    ok, why = sortkey.gnu_hash_sort_is_total(F, P)
+    if ok is None:
+        rep.lost("total-order", why)
+    else:
+        rep.ob("total-order", "dynamic-symbols", ok, f"create_gnu_hash_layout: {why}", "libwild/src/elf.rs", 0)
     rep.assume("byte equality across thread counts itself needs execution; decided here are the code-shape conditions without which it cannot hold")
     rep.assume("hashbrown with a fixed-state hasher iterates deterministically for identical insertion sequences; rows of kind set-only/fold do not depend on it")
